@@ -460,6 +460,9 @@ const STATIC_NAMES: &[&str] = &[
     "q{1}.css", "sty-le.min.css", "_under.css", "Z9.z9", "caf\u{e9}.\u{e9}xt", "dollar$.css", "semi;colon.css", "hash#tag.css", "at@sign.css",
     "100%.css", "a,b.css", "(p).css", "[b].css", "t~.css", "ex!.css", "eq=.css", "amp&.css", "caret^.css", "tick`.css", "pipe|.css",
     "lt<.css", "gt>.css", "q?.css", "star*.css", "col:on.css",
+    // names that collide with url directory prefixes (`to/…`, `pkg/1.0/…`, `v1.2/x/…`): a hashed `to-<hash>.css`
+    // sorts before `to/…` in byte order ('-' < '.' < '/'), after it in path-component order
+    "to.css", "to-x.css", "to x.css", "pkg.js", "pkg-1.js", "v1.2.css", "to", "to.", "inner.css", "inner-a.css",
 ];
 
 fn rand_content(r: &mut Rng) -> Vec<u8> {
